@@ -184,13 +184,15 @@ def h_checkerboard(ctx):
     ctx.assume(s < no)
     amp = ctx.real("amplitude")
     kw = {}
-    if cfg["wavelengths"]:
-        we, wn = ctx.real("w_east"), ctx.real("w_north")
+    we, wn = (ee - w) / 2, (no - s) / 2
+    if cfg["wavelengths"] in (True, "east"):
+        we = ctx.real("w_east")
         ctx.assume(we > 0)
+        kw["w_east"] = we
+    if cfg["wavelengths"] in (True, "north"):
+        wn = ctx.real("w_north")
         ctx.assume(wn > 0)
-        kw = {"w_east": we, "w_north": wn}
-    else:
-        we, wn = (ee - w) / 2, (no - s) / 2
+        kw["w_north"] = wn
     cb = vd.synthetic.CheckerBoard(amplitude=amp, region=(w, ee, s, no), **kw)
     e, n = ctx.reals("e", (1, 2)), ctx.reals("n", (1, 2))
     pred = cb.predict((e, n))
@@ -272,7 +274,7 @@ HARNESSES = [
         timeout_s=600,
     ),
     Harness("trend_monomials", h_trend, lambda tier, seed: [{"maxdeg": 4 if tier == "quick" else 6}], bounds="degree symbolic in 0..4 (quick) / 0..6 (thorough), forked; 2 symbolic points; symbolic coefficients", engine={"oneshot": True}),
-    Harness("checkerboard", h_checkerboard, {"quick": [{"wavelengths": False}, {"wavelengths": True}]}, bounds="symbolic region, amplitude, wavelengths, two query points in a (1,2) array", engine={"oneshot": True}),
+    Harness("checkerboard", h_checkerboard, {"quick": [{"wavelengths": False}, {"wavelengths": True}, {"wavelengths": "east"}, {"wavelengths": "north"}]}, bounds="symbolic region, amplitude, wavelengths (none, both, or only one given), two query points in a (1,2) array", engine={"oneshot": True}),
     Harness(
         "scipy_gridders",
         h_scipy,
